@@ -22,13 +22,13 @@ RX = {"gpp_c": 3, "gpp_h": 2, "lc_h": 3, "ksp_h": 2, "ppg_h": 3, "ppg_c": 2, "j3
 DYN = ["probeA", "probeB", "probeC", "probeA", "probeB", "bw", "bw_ff", "bw_analytic", "bw_ffonly", "bw_edw", "non_dynamic"]
 
 
-def generate(seed_: int, run: int, reactions: list[str]) -> dict:
+def generate(seed_: int, run: int, reactions: list[str], deep: bool = False) -> dict:
     rng = core.run_rng(PROP, seed_, run)
     tags = [t for t in RX if t in reactions]
     rx = rng.choices(tags, weights=[RX[t] for t in tags])[0]
     fault_mode = rng.random() < 0.4
     ops: list[dict] = []
-    for _ in range(rng.randrange(2, 11)):
+    for _ in range(rng.randrange(2, 11) if not (deep and run % 3 == 0) else rng.randrange(10, 32)):
         r = rng.random()
         if r < 0.6:
             kind = rng.choices(["name", "particle", "decay", "tuple", "set_dynamics"], weights=[5, 2, 3, 3, 1])[0]
@@ -72,7 +72,7 @@ class Context:
         self.info = zy.ensure("H0")
 
     def run(self, r: int) -> dict:
-        workload = generate(self.seed, r, self.info["reactions"])
+        workload = generate(self.seed, r, self.info["reactions"], deep=self.options.get("tier") == "thorough")
         out = execute(self.zy, workload)
         res = out["result"]
         formulates = [ev for ev in res["events"] if ev["op"] == "formulate"]
